@@ -409,9 +409,56 @@ func genAttrs(r *vu.Rng, tag string) string {
 	return b.String()
 }
 
+// foreign content × HTML-significant element names × integration points × HTML payloads
+// that reset the insertion mode (closing a table/select/template/caption/cell) × trailers.
+var foreignNames = []string{"template", "select", "table", "td", "tr", "caption", "colgroup", "head", "body", "html", "frameset",
+	"title", "style", "script", "textarea", "p", "a", "b", "form", "button", "li", "input", "option", "g", "path", "mrow", "font", "nobr", "plaintext", "noscript", "iframe"}
+var svgPoints = []string{"desc", "title", "foreignObject"}
+var mathPoints = []string{"mi", "mo", "mn", "ms", "mtext", "annotation-xml encoding=\"text/html\"", "annotation-xml encoding=application/xhtml+xml", "annotation-xml"}
+var resetPayloads = []string{"<table></table>", "<table><tr><td>1</td></tr></table>", "<select></select>", "<select><option>a</select>", "<template></template>",
+	"<table><caption></caption>", "<table><td></td>", "<table><tr></tr>", "<table><tbody></tbody>", "<table><colgroup></colgroup>", "<p></p>", "<table><select></table>",
+	"<template><td></template>", "<table><td><select></td>", "<frameset></frameset>", "<table><template></template></table>", "<table>", "<select>", "<template>", "<table><caption>"}
+var trailers = []string{"x", "<p>x", "</svg>", "</math>", "<b>", "<!--c-->", "</template>", "</table>", "<td>", "<tr>", "</desc>", "</mi>", "<svg>", "<math>", " ", "</p>", "<template>", "<select>", "</html>x", "</body>x", "<col>", "<caption>"}
+
+func genForeignDoc(r *vu.Rng) []byte {
+	var b strings.Builder
+	if r.Chance(1, 5) {
+		b.WriteString([]string{"<table>", "<template>", "<select>", "<p>", "<table><tr><td>", "<body>", "<head>", "<frameset>"}[r.Intn(8)])
+	}
+	ns := r.Intn(2)
+	b.WriteString([]string{"<svg>", "<math>"}[ns])
+	for lvl, n := 0, r.Range(1, 3); lvl < n; lvl++ {
+		for i, k := 0, r.Intn(3); i < k; i++ {
+			b.WriteString("<" + caseMix(r, foreignNames[r.Intn(len(foreignNames))]) + genAttrs(r, "") + ">")
+		}
+		// integration point (sometimes of the other namespace, sometimes none)
+		if r.Chance(5, 6) {
+			pts := svgPoints
+			if ns == 1 != r.Chance(1, 8) {
+				pts = mathPoints
+			}
+			b.WriteString("<" + pts[r.Intn(len(pts))] + ">")
+		}
+		for i, k := 0, r.Range(1, 2); i < k; i++ {
+			b.WriteString(resetPayloads[r.Intn(len(resetPayloads))])
+		}
+		if r.Chance(1, 3) {
+			ns = r.Intn(2)
+			b.WriteString([]string{"<svg>", "<math>"}[ns])
+		}
+	}
+	for i, k := 0, r.Range(1, 4); i < k; i++ {
+		b.WriteString(trailers[r.Intn(len(trailers))])
+	}
+	return []byte(b.String())
+}
+
 func genDoc(r *vu.Rng) []byte {
 	var b strings.Builder
 	var open []string
+	if r.Chance(1, 5) {
+		return genForeignDoc(r)
+	}
 	switch r.Intn(30) {
 	case 0:
 		// deep nesting around the 512 limit
